@@ -13,7 +13,7 @@ for _v in ('none', 'opq:uval'):
         if _u != 'none':
             exp.append("('units', self.units)")
         CONTRACTS[f'AttrSetup.items[value={_v != "none"},units={_u != "none"}]'] = dict(
-            target='AttrSetup.items', props=['C05'], self_fields={'value': _v, 'units': _u}, params={}, returns='none',
+            target='AttrSetup.items', props=['C05', 'C13'], self_fields={'value': _v, 'units': _u}, params={}, returns='none',
             requires=(['self.value is not None'] if _v != 'none' else []) + (['self.units is not None'] if _u != 'none' else []),
             ensures=[('every-part-that-was-given-is-forwarded-even-if-falsy', '__out__ == (' + ''.join(e + ', ' for e in exp) + ')')])
 
@@ -45,7 +45,7 @@ for _nm, (_kw, _ens) in ROUTES.items():
     if isinstance(_kw, str):
         _kw = eval(_kw)
     CONTRACTS[f'EFLRItem.set_attributes[{_nm}]'] = dict(
-        target='EFLRItem.set_attributes', self_class='ZoneItem', props=['C05'],
+        target='EFLRItem.set_attributes', self_class='ZoneItem', props=['C05', 'C13'],
         self_fields={'name': 'str', 'first': A2, 'second': A2, 'third': A2}, params={'kwargs': _kw}, returns='none',
         requires=["kwargs['first'].value is not None and kwargs['first'].units is not None"] if _nm.startswith('attrsetup') else [],
         may_raise=['AnyException'],
